@@ -82,21 +82,18 @@ def lagHeight (currentHeight : Nat) : Option Nat :=
   let h := currentHeight + Gen.Onchain.maxChainLag
   if h > U32.MAX ∨ h ≥ lockTimeThreshold then none else some h
 
-/-- common front part of the three sign_*_sweep entry points -/
-def inputCheck (tx : SweepTx) (input : Nat) : Bool := input < tx.nInputs
-
 /-- `sign_delayed_sweep`: `commitOk` = `get_per_commitment_point(commitment_number)` succeeded
     (commitment_number ≤ next_holder_commit_num + 1) -/
 def signDelayedSweep (destFilter : Bool) (tx : SweepTx) (input : Nat) (commitOk : Bool)
     (currentHeight cpSelectedDelay : Nat) : Res :=
-  if ¬ inputCheck tx input then .errInvalid
-  else if ¬ commitOk then .errPolicy
+  if tx.nInputs ≤ input then .errInvalid
+  else if commitOk = false then .errPolicy
   else match validateSweep destFilter tx with
     | .ok =>
       match lagHeight currentHeight with
       | none => .panic
       | some h =>
-        if ¬ locktimeSatisfied tx.locktime h then .errFormat
+        if locktimeSatisfied tx.locktime h = false then .errFormat
         else if tx.seq0 ≠ cpSelectedDelay then .errFormat
         else .ok
     | r => r
@@ -110,7 +107,7 @@ deriving DecidableEq, Repr
 
 def signCounterpartyHtlcSweep (destFilter : Bool) (tx : SweepTx) (input : Nat) (script : HtlcScript)
     (anchors : Bool) (currentHeight : Nat) : Res :=
-  if ¬ inputCheck tx input then .errInvalid
+  if tx.nInputs ≤ input then .errInvalid
   else match validateSweep destFilter tx with
     | .ok =>
       let afterLock : Option Res :=
@@ -122,7 +119,7 @@ def signCounterpartyHtlcSweep (destFilter : Bool) (tx : SweepTx) (input : Nat) (
         | .offered =>
           match lagHeight currentHeight with
           | none => some .panic
-          | some h => if ¬ locktimeSatisfied tx.locktime h then some .errFormat else none
+          | some h => if locktimeSatisfied tx.locktime h = false then some .errFormat else none
         | .invalid => some .errFormat
       match afterLock with
       | some r => r
@@ -132,13 +129,13 @@ def signCounterpartyHtlcSweep (destFilter : Bool) (tx : SweepTx) (input : Nat) (
     | r => r
 
 def signJusticeSweep (destFilter : Bool) (tx : SweepTx) (input : Nat) (currentHeight : Nat) : Res :=
-  if ¬ inputCheck tx input then .errInvalid
+  if tx.nInputs ≤ input then .errInvalid
   else match validateSweep destFilter tx with
     | .ok =>
       match lagHeight currentHeight with
       | none => .panic
       | some h =>
-        if ¬ locktimeSatisfied tx.locktime h then .errFormat
+        if locktimeSatisfied tx.locktime h = false then .errFormat
         else if Gen.Onchain.nonAnchorSeqs.contains tx.seq0 then .ok else .errFormat
     | r => r
 
@@ -210,6 +207,17 @@ structure HtlcPolicy where
   fltFeeRange : Bool      -- policy-htlc-fee-range is an error
 deriving DecidableEq, Repr
 
+/-- the feerate `decode_and_validate_htlc_tx` rebuilds the transaction with -/
+def htlcFeerate (ct : CommitmentType) (offered : Bool) (totalFee : Nat) : Nat :=
+  if ct.isZeroFee then 0 else estimateFeerate totalFee (htlcWeight ct offered)
+
+/-- `validate_htlc_tx` -/
+def validateHtlcTx (pol : HtlcPolicy) (ct : CommitmentType) (offered : Bool) (cltv feerate : Nat) : Res :=
+  if offered = true ∧ cltv = 0 ∧ pol.fltLocktime = true then .errPolicy
+  else if ct.isZeroFee = false ∧ feerate < pol.minFeerate ∧ pol.fltFeeRange = true then .errPolicy
+  else if pol.maxFeerate < feerate ∧ pol.fltFeeRange = true then .errPolicy
+  else .ok
+
 /-- `sign_htlc_tx`: `toSelfDelay` is already selected by `is_counterparty`
     (holder_selected_contest_delay for a counterparty HTLC tx, counterparty_selected for a holder one);
     key ids 0/0 are the negotiated revocation / delayed keys of `txkeys`. -/
@@ -218,9 +226,8 @@ def signHtlcTx (pol : HtlcPolicy) (ct : CommitmentType) (toSelfDelay : Nat) (tx 
   match tx.ins with
   | [] => .errPolicy                          -- sighash of input 0 cannot be computed
   | in0 :: _ =>
-    match redeem with
-    | .invalid => .errPolicy
-    | _ =>
+    if redeem = .invalid then .errPolicy
+    else
       let offered := redeem == .offered
       match tx.outs with
       | [] => .panic                          -- tx.output[0]
@@ -229,17 +236,14 @@ def signHtlcTx (pol : HtlcPolicy) (ct : CommitmentType) (toSelfDelay : Nat) (tx 
         match U64.checkedSub amountSat out0.value with
         | none => .errPolicy                  -- fee underflow
         | some totalFee =>
-          let feerate := if ct.isZeroFee then 0 else estimateFeerate totalFee (htlcWeight ct offered)
           match U64.checkedMul amountSat 1000 with
           | none => .panic                    -- htlc_amount_sat * 1000 (debug build)
           | some _ =>
-            match recompose ct in0.txid in0.vout feerate toSelfDelay offered cltv amountSat 0 0 with
+            match recompose ct in0.txid in0.vout (htlcFeerate ct offered totalFee) toSelfDelay offered cltv
+                amountSat 0 0 with
             | none => .panic
             | some rtx =>
-              if ¬ sighashEq ct.isAnchors tx rtx then .errPolicy
-              else if offered ∧ cltv = 0 ∧ pol.fltLocktime then .errPolicy
-              else if ¬ ct.isZeroFee ∧ feerate < pol.minFeerate ∧ pol.fltFeeRange then .errPolicy
-              else if pol.maxFeerate < feerate ∧ pol.fltFeeRange then .errPolicy
-              else .ok
+              if sighashEq ct.isAnchors tx rtx = false then .errPolicy
+              else validateHtlcTx pol ct offered cltv (htlcFeerate ct offered totalFee)
 
 end VlsModel.Sweep
